@@ -483,6 +483,7 @@ def m_vec_new(e,run,a,f): return VecO([])
 def m_vec_push(e,run,a,f): deref(a[0]).items.append(a[1]); return UNIT
 def m_string_push(e,run,a,f):
     c=a[1]
+    if isinstance(c,Str): deref(a[0]).b.extend(c.b); return UNIT
     if not isinstance(c,Char): raise Unsupported('push symbolic char')
     deref(a[0]).b.extend(chr(c.v).encode()); return UNIT
 def m_string_push_str(e,run,a,f):
@@ -1511,8 +1512,23 @@ def m_min_max(which):
     return m
 def m_str_chars(e,run,a,f):
     bl=byte_list(a[0]); c=conc_bytes(bl)
-    if c is None: raise Unsupported('chars on symbolic string')
-    return Iter([Char(ord(ch)) for ch in c.decode()])
+    if c is not None: return Iter([Char(ord(ch)) for ch in c.decode()])
+    # symbolic content: split at character boundaries (forks on the class of each lead byte);
+    # a symbolic character is carried as the Str of its UTF-8 bytes
+    out=[]; i=0; n=len(bl)
+    def rng(x,lo,hi):
+        if isinstance(x,int): return lo<=x<=hi
+        return run.branch_bool(Bool(z3.And(z3.UGE(x,lo),z3.ULE(x,hi))),'chars')
+    while i<n:
+        x=bl[i]
+        if rng(x,0,0x7f): k=1
+        elif rng(x,0xc0,0xdf): k=2
+        elif rng(x,0xe0,0xef): k=3
+        else: k=4
+        seg=bl[i:i+k]; i+=k
+        cs=conc_bytes(seg)
+        out.append(Char(ord(cs.decode())) if cs is not None else Str(seg))
+    return Iter(out)
 def m_str_bytes(e,run,a,f): return Iter([Int(8,False,x) for x in byte_list(a[0])])
 def m_str_trim(kind):
     def m(e,run,a,f):
@@ -1867,3 +1883,36 @@ def register_misc6(E):
 _old_register_all13=register_all
 def register_all(E):
     _old_register_all13(E); register_misc6(E)
+
+# ----------------------------------------------------------------------------- ring::digest (injective function of exactly the bytes fed)
+def m_digest_new(e,run,a,f):
+    alg=deref(a[0])
+    name=alg.kind.split(':')[-1] if isinstance(alg,Opaque) else 'SHA256'
+    return Opaque('DigestCtx',{'alg':name,'b':[]})
+def m_digest_update(e,run,a,f):
+    deref(a[0]).p['b'].extend(byte_list(a[1])); return UNIT
+def digest_value(run,alg,bl):
+    import hashlib
+    n={'SHA256':32,'SHA512':64,'SHA384':48,'SHA1_FOR_LEGACY_USE_ONLY':20}.get(alg,32)
+    c=conc_bytes(bl)
+    if c is not None:
+        h={'SHA256':hashlib.sha256,'SHA512':hashlib.sha512,'SHA384':hashlib.sha384}.get(alg,hashlib.sha256)(c).digest()
+        return Str(list(h),False,False,{'kind':'digest','alg':alg,'pre':list(bl)})
+    k=run.fresh_n['digest']; run.fresh_n['digest']+=1
+    return Str([z3.BitVec('digest%d_%d'%(k,i),8) for i in range(n)],False,False,{'kind':'digest','alg':alg,'pre':list(bl)})
+def m_digest_finish(e,run,a,f):
+    c=deref(a[0]); return Opaque('Digest',digest_value(run,c.p['alg'],c.p['b']))
+def m_digest_as_ref(e,run,a,f): return Ref(Cell(deref(a[0]).p))
+def m_digest_oneshot(e,run,a,f):
+    alg=deref(a[0]); name=alg.kind.split(':')[-1] if isinstance(alg,Opaque) else 'SHA256'
+    return Opaque('Digest',digest_value(run,name,byte_list(a[1])))
+def m_digest_clone(e,run,a,f):
+    c=deref(a[0]); return Opaque('DigestCtx',{'alg':c.p['alg'],'b':list(c.p['b'])})
+def register_digest(E):
+    M=E.model
+    M(r'^(ring::)?digest::Context::new$',m_digest_new); M(r'^(ring::)?digest::Context::update$',m_digest_update); M(r'^(ring::)?digest::Context::finish$',m_digest_finish)
+    M(r'^<((ring::)?digest::)?Digest as AsRef<\[u8\]>>::as_ref$',m_digest_as_ref); M(r'^(ring::)?digest::digest$',m_digest_oneshot)
+    M(r'^<(ring::)?digest::Context as Clone>::clone$',m_digest_clone)
+_old_register_all14=register_all
+def register_all(E):
+    register_digest(E); _old_register_all14(E)
